@@ -5,8 +5,8 @@
     written in the order of the code's checks; the result says whether the call was carried
     out (`ok`) or refused with an exception (`reject`).
   * `withTempMc k f` — the decorator `use_mc_sample_size(k)` around ANY computation `f`
-    (returning or raising).
-  The tables (`members`, accepted strings, `initCfg`, `resetCfg`, `tempRestoreInFinally`) are
+    (returning or raising an exception of any class).
+  The tables (`members`, accepted strings, `initCfg`, `resetCfg`, `tempRestores`) are
   generated from the source on every run (QExPy/Generated/Settings.lean).  Core Lean only.
 -/
 import QExPy.Model.SettingsTypes
@@ -137,17 +137,20 @@ instance (c : Cfg) : Decidable (WF c) := by unfold WF; infer_instance
 
 /-- `use_mc_sample_size(k)(f)` called in state `c`.
     `f` is the wrapped computation: it sees the state, may change it, and ends with a result
-    `r`; `raised r` says whether it ended by raising.  The decorator first saves the current
-    size and sets `k` through the validating setter (a bad `k` raises before `f` runs: `none`);
-    then runs `f`; then writes the saved size back through the setter — always if the restore
-    sits in a `finally:` (generated flag), otherwise only when `f` returned. -/
-def withTempMc {ρ : Type} (raised : ρ → Bool) (k : Arg) (f : Cfg → Cfg × ρ) (c : Cfg) :
+    `r`; `outcome r` says how it ended — returned, or raised an exception of some class (ANY
+    class: derived from `Exception` or only from `BaseException`).  The decorator first saves
+    the current size and sets `k` through the validating setter (a bad `k` raises before `f`
+    runs: `none`); then runs `f`; then writes the saved size back through the setter — on the
+    outcomes for which the source does so (`Gen.tempRestores`, generated from the shape of the
+    wrapper: `finally:` = every outcome, `except Exception:` = only those classes, no `try` =
+    only a normal return). -/
+def withTempMc {ρ : Type} (outcome : ρ → Outcome) (k : Arg) (f : Cfg → Cfg × ρ) (c : Cfg) :
     Cfg × Option ρ :=
   match step c (.setMcSize k) with
   | (_, .reject) => (c, none)
   | (c1, .ok) =>
     let (c2, r) := f c1
-    if Gen.tempRestoreInFinally || !raised r then
+    if Gen.tempRestores (outcome r) then
       ((step c2 (.setMcSize (.scalar (.int c.mcSize)))).1, some r)
     else
       (c2, some r)
